@@ -10,6 +10,19 @@ CHECKS = {
                      "plus random input set is executed in an ASan+UBSan build of the current skeletons and its result compared with an "
                      "independent arithmetic oracle; exhaustive only for INTEGER octet strings of length <= 2.",
                 note="Trusts the Python reference (big integers, struct.pack doubles, vf/asn/der.py:real_octets); LP64 host; values explored, not all 2^64."),
+    "C17": dict(level="exploration", engine="hdriver", ref="DESIGN.md 4/C17",
+                technique="sanitizer-watched helper-API workload under several TZ environments + reference-model monitor (Python int/datetime) over the call log",
+                text="OBJECT IDENTIFIER / RELATIVE-OID arc setters/getters/parsers and the GeneralizedTime/UTCTime converters are executed "
+                     "(ASan+UBSan) on boundary and random arc vectors, raw octet strings (non-minimal, unterminated, overflowing) and "
+                     "time_t values across years 1..9999, the time part once per TZ (fixed-offset, half-hour, DST, zoneinfo) in its own process.",
+                note="Trusts Python datetime/integers; UTCTime judged for 1960..2049 only; t == -1 fraction not judged (in-band error value)."),
+    "C20": dict(level="exploration", engine="tools-monitor", ref="DESIGN.md 4/C20",
+                technique="differential round-trip monitor (unber -p | enber) + independent TLV parser over unber's printed attributes + ASan-watched hostile inputs",
+                text="unber and enber built from the current tree with ASan are run on random well-formed TLV forests (all classes, tag numbers "
+                     "across 30/31 and multi-octet forms, definite/indefinite, nesting) and reference DER of generated types; output must "
+                     "re-encode to the identical bytes and every O/T/TL/V/L attribute must equal the independent parse; mutated, random and "
+                     "nesting-bomb inputs check the safety clause (exit status, diagnostic, no sanitizer report, no hang).",
+                note="Trusts vf/asn/der.py:parse_tlv; inputs are sampled; bombs to depth 10^4 (quick) / 10^5 (thorough)."),
 }
 
 PENDING_REASON = "check not implemented yet (bring-up in progress; see DESIGN.md section 9)"
